@@ -28,7 +28,8 @@ deriving DecidableEq, Repr
 inductive Act
   | launchFirst | launchHedge | timer | recv
   | fnRet (k : Nat) (c : Bool)         -- visible: the function of attempt k returns (stamped inside the function)
-  | finish (k : Nat) (c : Bool)        -- silent: the attempt's goroutine counts the result, tries the CAS, sends
+  | count (k : Nat) (c : Bool)         -- silent: the attempt's goroutine counts the result (`isFinal` is decided here) …
+  | trySend (k : Nat) (c f : Bool)     -- silent: … and then tries the CAS and sends
   | enter (k : Nat) | callerRet (k : Nat) | seeCancelled (k : Nat)
 deriving DecidableEq, Repr
 
@@ -46,14 +47,15 @@ def step (t : TS) : Act → Option TS
   | .recv => (Hedge.step t.core .recv).map (fun s => { t with core := s })
   | .fnRet k c =>
     if t.core.ths[k]? = some .running ∧ ¬ t.retd.any (fun x => x.1 == k) then some { t with retd := (k, c) :: t.retd } else none
-  | .finish k c =>
-    if t.retd.contains (k, c) then (Hedge.step t.core (.finish k c)).map (fun s => { core := s, retd := t.retd.erase (k, c) }) else none
+  | .count k c =>
+    if t.retd.contains (k, c) then (Hedge.step t.core (.count k c)).map (fun s => { core := s, retd := t.retd.erase (k, c) }) else none
+  | .trySend k c f => (Hedge.step t.core (.trySend k c f)).map (fun s => { t with core := s })
   | .enter k => if t.core.ths[k]? = some .running ∧ ¬ t.retd.any (fun x => x.1 == k) then some t else none
   | .callerRet k => if t.core.returned = true ∧ (t.core.accepted.map (·.1)) = some k then some t else none
   | .seeCancelled k => if t.core.returned = true ∧ k < t.core.launched then some t else none
 
 def silent : Act → Bool
-  | .launchFirst | .timer | .recv | .finish _ _ => true
+  | .launchFirst | .timer | .recv | .count _ _ | .trySend _ _ _ => true
   | _ => false
 
 def shows (t : TS) : Act → Ev → Bool
@@ -66,7 +68,8 @@ def shows (t : TS) : Act → Ev → Bool
 
 def acts (n : Nat) : List Act :=
   [.launchFirst, .launchHedge, .timer, .recv] ++
-    (List.range n).flatMap (fun k => [.fnRet k true, .fnRet k false, .finish k true, .finish k false, .enter k, .callerRet k, .seeCancelled k])
+    (List.range n).flatMap (fun k => [.fnRet k true, .fnRet k false, .count k true, .count k false, .trySend k true true, .trySend k true false, .trySend k false true,
+      .trySend k false false, .enter k, .callerRet k, .seeCancelled k])
 
 def osys (n : Nat) : Trace.OSys TS Act Ev :=
   { init := { core := Hedge.init n }, acts := acts n, step := step, silent := silent, shows := shows }
@@ -90,7 +93,8 @@ theorem reach_inv (n : Nat) (t : TS) (h : Trace.Reach (osys n) t) : Inv t.core :
     | launchHedge => simp only [osys, step] at hst; split at hst; exact core_step _ _ hst (fun _ => rfl); cases hst
     | timer => exact core_step .timer _ (by simpa [osys, step] using hst) (fun _ => rfl)
     | recv => exact core_step .recv _ (by simpa [osys, step] using hst) (fun _ => rfl)
-    | finish k c => simp only [osys, step] at hst; split at hst; exact core_step _ _ hst (fun _ => rfl); cases hst
+    | count k c => simp only [osys, step] at hst; split at hst; exact core_step _ _ hst (fun _ => rfl); cases hst
+    | trySend k c f => exact core_step (.trySend k c f) _ (by simpa [osys, step] using hst) (fun _ => rfl)
     | fnRet k c =>
       simp only [osys, step] at hst
       split at hst
